@@ -98,6 +98,8 @@ pub trait Prop: 'static {
     }
     /// remember the case being executed so that the watchdog can save it if it never returns
     const TRACK_STALL: bool = false;
+    /// upper bound on shrink steps (sub-checks whose failing cases are slow - wall-clock waits - set it low)
+    const MAX_SHRINK_ITERS: u32 = 3000;
 }
 
 /// cases currently executing on worker threads (only for sub-checks with TRACK_STALL)
@@ -343,7 +345,7 @@ fn worker<C: Codec, P: Prop>(
     let config = Config {
         cases,
         failure_persistence: None,
-        max_shrink_iters: 3000,
+        max_shrink_iters: P::MAX_SHRINK_ITERS,
         max_global_rejects: 100_000,
         ..Config::default()
     };
